@@ -75,7 +75,7 @@ Proof.
             else Next (fold_left Z.min (map wgt (map m_of l)) mn, fold_left Z.max (map wgt (map m_of l)) mx)).
   { clear. induction l as [|e l IH]; intros i mn mx; [reflexivity|].
     cbn [go_range_from map existsb fold_left]. unfold body at 1. cbn [m_of wty wgt].
-    destruct (negb (go_endpoint_Endpoint_WeightType e =? 1)); [reflexivity|]. cbn [orb].
+    destruct (go_endpoint_Endpoint_WeightType e =? 1); cbn [negb orb]; [|reflexivity].
     set (w := go_endpoint_Endpoint_Weight e).
     destruct (mx <? w) eqn:E1; destruct (w <? mn) eqn:E2; cbn [bindc]; rewrite IH;
       destruct (existsb (fun e0 => negb (wty e0 =? 1)) (map m_of l)); try reflexivity; do 2 f_equal; f_equal; lia. }
